@@ -837,13 +837,22 @@ func (r *wsRun) opHold(a int) {
 	}
 	// Only go on when the loop really waits for the subscriber: what happens when an
 	// Unsubscribe overtakes a notification *inside* the loop is deliberately not asserted.
+	// A client whose loop does NOT wait for its subscribers (a queue and a forwarder per subscription, say) takes
+	// the next frame instead: nothing can be held then, and the notification is judged like any other. That the
+	// loop blocks on a slow consumer is how /repo works today, not something C18 states.
 	deadline := time.Now().Add(liveness)
 	for !loopBlockedOnSubscriber() {
+		select {
+		case r.tr.recv <- []byte("#verif-barrier"):
+			r.class("ws:slow-consumer-does-not-hold-the-loop(asynchronous dispatch)")
+			r.collectNotification(id, payload, s, true)
+			return
+		case <-time.After(200 * time.Microsecond):
+		}
 		if time.Now().After(deadline) {
 			r.stuck("a notification for live server id %s (owner %s) was not offered to its subscriber within %s", id, s.token, liveness)
 			return
 		}
-		time.Sleep(50 * time.Microsecond)
 	}
 	r.held = &heldNotif{s: s, id: id, payload: payload}
 	r.class("ws:slow-consumer(held-notification)")
@@ -910,12 +919,32 @@ func (r *wsRun) opNotifyID(id string) {
 	if !r.deliver(fmt.Sprintf(`{"jsonrpc":"2.0","method":"eth_subscription","params":{"subscription":%q,"result":%s}}`, id, payload)) {
 		return
 	}
+	r.collectNotification(id, payload, want, false)
+}
+
+// asyncGrace is how long a notification that the loop has dealt with (it took the next frame) may still be on its
+// way to the subscriber that owns its id, for clients that dispatch asynchronously. On /repo the loop itself hands
+// the notification over, so this wait only ever happens there when the notification was really dropped.
+const asyncGrace = 5 * time.Second
+
+// collectNotification watches what becomes of one notification frame the client has taken: who receives it, until
+// the receive loop is back at its receive (it takes the inert barrier frame; barrierPassed = it has already) and -
+// if the owner has not got it by then - for asyncGrace longer.
+func (r *wsRun) collectNotification(id, payload string, want *wsSub, barrierPassed bool) {
 	var got *wsSub
 	var gotN *rpcbackend.RPCSubscriptionNotification
+	var never chan []byte
+	timeout := time.After(liveness)
 	for {
+		if barrierPassed && (got != nil || want == nil || want.ctxDead) {
+			break
+		}
 		cases := []reflect.SelectCase{
 			{Dir: reflect.SelectSend, Chan: reflect.ValueOf(r.tr.recv), Send: reflect.ValueOf([]byte("#verif-barrier"))},
-			{Dir: reflect.SelectRecv, Chan: reflect.ValueOf(time.After(liveness))},
+			{Dir: reflect.SelectRecv, Chan: reflect.ValueOf(timeout)},
+		}
+		if barrierPassed {
+			cases[0] = reflect.SelectCase{Dir: reflect.SelectRecv, Chan: reflect.ValueOf(never)}
 		}
 		var who []*wsSub
 		for _, s := range r.subs {
@@ -926,11 +955,17 @@ func (r *wsRun) opNotifyID(id string) {
 		}
 		i, v, ok := reflect.Select(cases)
 		if i == 0 {
-			break // the loop is back at its receive: the frame has been dealt with
+			// the loop is back at its receive: the frame has been dealt with (handed over, dropped - or queued)
+			barrierPassed = true
+			timeout = time.After(asyncGrace)
+			continue
 		}
 		if i == 1 {
-			r.stuck("a notification for %s was neither consumed nor dropped within %s", id, liveness)
-			return
+			if !barrierPassed {
+				r.stuck("a notification for %s was neither consumed nor dropped within %s", id, liveness)
+				return
+			}
+			break // nothing arrived after the loop had moved on: dropped
 		}
 		s := who[i-2]
 		if !ok {
@@ -940,6 +975,9 @@ func (r *wsRun) opNotifyID(id string) {
 		}
 		if got != nil {
 			r.fail("notification-routing", "one notification for %s was delivered twice (%s and %s)", id, got.token, s.token)
+		}
+		if barrierPassed {
+			r.class("ws:notification-arrived-after-the-loop-had-moved-on(asynchronous dispatch)")
 		}
 		got = s
 		gotN, _ = v.Interface().(*rpcbackend.RPCSubscriptionNotification)
